@@ -170,3 +170,18 @@ def run_case(case):
     if list(m.df.columns) != MOTL_COLS:
         return {"what": "columns changed"}
     return None
+
+
+def replay_kind(kind, n=60):
+    """search generated cases of one filter kind for a native failure"""
+    k = 0
+    for key, case in gen_cases(3, 400):
+        if case["kind"] != kind:
+            continue
+        k += 1
+        r = run_case(case)
+        if r is not None and classify(case, r) is None:
+            return {"reproduced": True, "input": {"kind": kind, "case": key}, "observed": r}
+        if k >= n:
+            break
+    return {"reproduced": False, "input": f"{k} generated '{kind}' cases", "observed": None}
